@@ -171,6 +171,23 @@ func driverCheck(doc, upd bson.D, afs []bson.D, applied result) (checked bool) {
 	if !hasNow && !sameBytes(stored, applied.doc) {
 		out.Encode(map[string]interface{}{"kind": "driver", "what": "UpdateOne stored a different document than mongokit.Apply produced", "doc": table.Val(doc), "upd": table.Val(upd), "stored": table.Val(stored)})
 	}
+	// the same update once more, as an upsert: the document is matched, so nothing is inserted - also when the update
+	// no longer changes anything
+	res2, err2 := coll.UpdateOne(ctx, bson.D{{Key: "_id", Value: doc[0].Value}}, upd, opts.SetUpsert(true))
+	n, _ := coll.CountDocuments(ctx, bson.D{})
+	if err2 == nil && (res2.MatchedCount != 1 || res2.UpsertedCount != 0 || n != 1) {
+		out.Encode(map[string]interface{}{"kind": "driver", "what": fmt.Sprintf("an upserting UpdateOne on a document that matches reports matched=%d upserted=%d and leaves %d documents",
+			res2.MatchedCount, res2.UpsertedCount, n), "doc": table.Val(doc), "upd": table.Val(upd)})
+	} else if err2 != nil && n != 1 {
+		out.Encode(map[string]interface{}{"kind": "driver", "what": "a rejected upserting UpdateOne changed the number of documents", "doc": table.Val(doc), "upd": table.Val(upd)})
+	}
+	// and through a filter that is not on _id
+	res3, err3 := coll.UpdateMany(ctx, bson.D{{Key: "_id", Value: bson.D{{Key: "$gte", Value: int32(0)}}}}, upd, opts)
+	n, _ = coll.CountDocuments(ctx, bson.D{})
+	if err3 == nil && (res3.MatchedCount != 1 || res3.UpsertedCount != 0 || n != 1) {
+		out.Encode(map[string]interface{}{"kind": "driver", "what": fmt.Sprintf("an upserting UpdateMany on a document that matches reports matched=%d upserted=%d and leaves %d documents",
+			res3.MatchedCount, res3.UpsertedCount, n), "doc": table.Val(doc), "upd": table.Val(upd)})
+	}
 	return true
 }
 
